@@ -60,6 +60,13 @@ pub struct AuxDesc {
     pub width: usize,
     pub rands: usize,
     pub src: Vec<usize>,
+    /// geometric auxiliary columns aux[m][i] = (m + 2)^i (transition next = (m + 2) * current) instead of
+    /// running products: their value at every step is public, so they can be asserted at any step
+    #[serde(default)]
+    pub geo: bool,
+    /// the step at which every auxiliary column is asserted (0: aux[m][0] = 1)
+    #[serde(default)]
+    pub astep: usize,
 }
 
 #[derive(Deserialize, Debug, Clone)]
@@ -226,7 +233,7 @@ impl<B: StarkField + ExtensibleField<2> + ExtensibleField<3>> Air for GenAir<B> 
         let context = match desc.aux.first() {
             None => AirContext::new(trace_info, degrees, num_assertions, options),
             Some(a) => {
-                let aux_degrees = vec![TransitionConstraintDegree::new(2); a.width];
+                let aux_degrees = vec![TransitionConstraintDegree::new(if a.geo { 1 } else { 2 }); a.width];
                 AirContext::new_multi_segment(trace_info, degrees, aux_degrees, num_assertions, a.width, options)
             },
         }
@@ -293,6 +300,10 @@ impl<B: StarkField + ExtensibleField<2> + ExtensibleField<3>> Air for GenAir<B> 
         // the first periodic column (if any) enters the running-product factor
         let per: E = periodic_values.first().map(|p| (*p).into()).unwrap_or(E::ZERO);
         for m in 0..a.width {
+            if a.geo {
+                result[m] = aux_frame.next()[m] - aux_frame.current()[m] * E::from(B::from(m as u32 + 2));
+                continue;
+            }
             let f: E = main_frame.current()[a.src[m]].into();
             result[m] = aux_frame.next()[m] - aux_frame.current()[m] * (f + r[m % a.rands] + per);
         }
@@ -303,6 +314,11 @@ impl<B: StarkField + ExtensibleField<2> + ExtensibleField<3>> Air for GenAir<B> 
         _aux_rand_elements: &AuxRandElements<E>,
     ) -> Vec<Assertion<E>> {
         let a = self.desc.aux.first().expect("aux description");
+        if a.geo {
+            return (0..a.width)
+                .map(|m| Assertion::single(m, a.astep, E::from(B::from(m as u32 + 2)).exp((a.astep as u32).into())))
+                .collect();
+        }
         (0..a.width).map(|m| Assertion::single(m, 0, E::ONE)).collect()
     }
 }
@@ -371,6 +387,10 @@ pub fn build_aux<B: StarkField, E: FieldElement<BaseField = B>>(
     for m in 0..a.width {
         cols[m][0] = E::ONE;
         for i in 1..n {
+            if a.geo {
+                cols[m][i] = cols[m][i - 1] * E::from(B::from(m as u32 + 2));
+                continue;
+            }
             let f: E = main.get(a.src[m], i - 1).into();
             let per: E = match desc.periodic.first() {
                 Some(p) => E::from(B::from(p[(i - 1) % p.len()])),
